@@ -726,7 +726,7 @@ class E9Hostile(Engine):
     )
 
     def generate(self, rng, tier: str, avoid) -> dict:
-        from dst.gen.hostile import hostile_texts, mutate_text, noise
+        from dst.gen.hostile import hostile_texts, mutate_text, noise, rejection_texts
         from dst.gen.programs import GenOptions, ProgGen
 
         canary = "/verif/.work/canary/HIT"
@@ -735,6 +735,7 @@ class E9Hostile(Engine):
             base = ProgGen(rng, (), GenOptions(max_stmts=rng.choice([6, 12, 20]))).generate()
             texts.append(mutate_text(rng, base))
         texts.append(noise(rng))
+        texts += rejection_texts(rng, 3)
         skip = set(avoid)
         if "hostile_bigint" in skip:
             texts = [t for t in texts if not re.search(r"\*\*\s*\d+\s*\*\*|<<\s*10\s*\*\*|\*\*\s*7777|\* 10\*\*10|10\*\*8", t)] or ["x = 1\n"]
